@@ -5,8 +5,8 @@ import "strings"
 func init() {
 	register(&Property{ID: "C20",
 		Jobs: func(tier string) []*Job {
-			return []*Job{f4Job("extra-config", "VerifExtraConfig", 0, []string{"ran"}, []string{"C20-same-output"},
-				"a program with a user module, class and subclass (leaf kind a solver variable) analysed, in one path, under the core configuration and under core + one extra configuration file loaded by the real loader (5 variants: same short name as the user superclass / subclass / module in another frame, an unrelated class in the Builtin frame, an unrelated class with extends); diagnostics and -i output (flag enumerated) must be identical")}
+			return []*Job{withBudget(20000000, f4Job("extra-config", "VerifExtraConfig", 0, []string{"ran"}, []string{"C20-same-output"},
+				"a program with a user module, class and subclass (leaf kind a solver variable) analysed, in one path, under the core configuration and under core + one extra configuration file loaded by the real loader (5 variants: same short name as the user superclass / subclass / module in another frame, an unrelated class in the Builtin frame, an unrelated class with extends); diagnostics and -i output (flag enumerated) must be identical"))}
 		},
 		Custom:    replayExtraConfig,
 		Filter:    func(v *Violation) bool { return strings.HasPrefix(v.ID, "C20") },
